@@ -57,6 +57,23 @@ def bases(ctx):
     return out
 
 
+EXPLICIT = [dict(STOP=1010.0), dict(STRT=0.0), dict(STEP=0.0), dict(STOP=5.5, version=1.2), dict(STRT=1.0, STOP=2.0, STEP=0.25)]
+
+
+def irregular_base(rng):
+    """self-consistent file (STOP = last index value) whose STEP is not the first increment (irregular sampling, STEP 0)"""
+    import lasgen
+    s = lasgen.basic_spec(rng, nrows=4)
+    idx = ["1000.0", "1000.5", "1002.0", "1004.5"]
+    for i, row in enumerate(s.rows):
+        row[0] = idx[i]
+    s.well[0] = ("STRT", "M", idx[0], "START")
+    s.well[1] = ("STOP", "M", idx[-1], "STOP")
+    s.well[2] = ("STEP", "M", "0", "STEP")
+    s.curves[0] = (s.curves[0][0], "M", "", "depth")
+    return lasgen.render(s)[0]
+
+
 def run(ctx):
     res = lib.Result()
     rng = ctx.rng
@@ -80,6 +97,18 @@ def run(ctx):
             meta.append((name, text, ops))
             kinds.add((name, tuple(sorted((a, str(b)) for a, b in wkw.items()))))
             hist["corpus" if name.startswith("corpus") else "generated"] += 1
+    # explicit STRT/STOP/STEP keyword values given on every cycle (implementation-side oracle only: the writer model
+    # leaves STRT/STOP/STEP to lasio, as C16 does)
+    n_explicit = 0
+    for name, text in bs[::3] + [("irregular:%d" % i, irregular_base(rng)) for i in range(6)]:
+        wkw = rng.choice(EXPLICIT)
+        bad, st = oracle(text, wkw, 3)
+        if st != "ok":
+            continue
+        n_explicit += 1
+        if bad:
+            res.oracle_violations.append({"payload": {"text": text, "wkw": wkw, "k": 3}, "what": "%s (explicit %r): %s" % (name, wkw, bad)})
+    hist["explicit_strt_stop_step"] = n_explicit
     if ctx.build.model_ok:
         mism, err = lib.run_coq_cases("c11", [], wm.RUN_PIPE, cases, shard=6)
         res.corr_error = err
@@ -87,7 +116,7 @@ def run(ctx):
             res.mismatches.append({"base": meta[i][0], "ops": repr(meta[i][2]), "text": meta[i][1]})
     else:
         res.corr_error = "model not built"
-    res.cases = len(cases)
+    res.cases = len(cases) + n_explicit
     res.distinct_nontrivial = len(kinds)
     res.rule = ("accepted inputs = the readable/writable ASCII LAS 1.2/2.0 example files plus generated files with odd features "
                 "(.1IN unit, duplicated/blank mnemonics, empty value with unit, long fields) x writer option sets x 2..5 "
